@@ -6,6 +6,7 @@ require (
 	github.com/anishathalye/porcupine v1.3.0
 	github.com/pkg/errors v0.9.1
 	github.com/ysugimoto/falco/v2 v2.0.0
+	go.elara.ws/pcre v0.0.0-20230805032557-4ce849193f64
 	gopkg.in/yaml.v3 v3.0.1
 )
 
@@ -26,7 +27,6 @@ require (
 	github.com/remyoudompheng/bigfft v0.0.0-20200410134404-eec4a21b6bb0 // indirect
 	github.com/rs/xid v1.5.0 // indirect
 	github.com/ysugimoto/twist v0.10.2 // indirect
-	go.elara.ws/pcre v0.0.0-20230805032557-4ce849193f64 // indirect
 	golang.org/x/sync v0.12.0 // indirect
 	golang.org/x/sys v0.31.0 // indirect
 	modernc.org/libc v1.17.0 // indirect
